@@ -19,8 +19,8 @@ Generated definitions (namespace MpVerif.Gen.SolGuards), each `Outcome Int` over
   rec_len j                          binary: record length of a vector of j reals (uiolen arithmetic)
   suffix_is_real_bin / _text kind    reader: `SR.h.kind & 4` in bsufread / gsufread
   w_kind_mask kind / w_is_output kind    writer (include/mp/sol.h): kind printed in the suffix header, OUTPUT filter
-plus (structure tie, A') the ordered list of format strings the writer prints:
-  writer_formats : List String
+plus (structure tie, A') the ordered list of format strings the writer prints and fmt's spellings of non-finite doubles:
+  writer_formats : List String, fmt_nonfinite : List String
 
 usage: gen_solguards.py <repo> <out.lean> <workdir>
 """
@@ -207,6 +207,17 @@ def main():
         if missing:
             raise TranslateError('functions not found in the AST of the synthetic TU: %s' % missing)
         fm, kinds = writer_formats(wr)
+        fh = open(os.path.join(repo, 'include', 'mp', 'format.h')).read()
+        # spellings fmt uses for non-finite doubles (BasicWriter::write_double formats them itself): the lower-case alternative of
+        # `upper ? " NAN" : " nan"` / `" INF" : " inf"` without the leading blank, preceded by the sign character when the value is negative
+        nf = []
+        for var in ('inf', 'nan'):
+            mm = re.findall(r'const char \*%s = upper \? "[^"]*" : " (\w+)";' % var, fh)
+            if len(mm) != 1:
+                raise TranslateError('format.h: spelling of %s not found exactly once' % var)
+            nf.append(mm[0])
+        if len(re.findall(r"isnegative\(static_cast<double>\(value\)\)\) \{\s*sign = '-';", fh)) != 1:
+            raise TranslateError("format.h: `sign = '-'` for negative values not found exactly once")
     except TranslateError as e:
         print('TRANSLATE-ERROR gen_solguards: %s' % e)
         sys.exit(3)
@@ -223,6 +234,8 @@ def main():
     lean.append('def writer_formats : List String := [%s]' % ', '.join(json.dumps(x) for x in fm))
     lean.append('/-- order in which WriteSolFile visits the suffix kinds -/')
     lean.append('def writer_kind_order : List String := [%s]' % ', '.join(json.dumps(x) for x in kinds))
+    lean.append("/-- fmt's spellings of non-finite doubles (include/mp/format.h, write_double), each also printed with a leading `-` -/")
+    lean.append('def fmt_nonfinite : List String := [%s]' % ', '.join(json.dumps(x) for x in nf))
     lean.append('\nend MpVerif.Gen.SolGuards\n')
     text = '\n'.join(lean)
     if not os.path.exists(out) or open(out).read() != text:
